@@ -196,6 +196,8 @@ public:
         Prng r(derive(seed, "c07"));
         auto &k = p.knobs;
         k[QStringLiteral("sm")] = r.weighted({ 30, 20, 50 });
+        // the server may bind another address than the configured one; the application reconnects with its stored configuration
+        k[QStringLiteral("otherJid")] = (qint64)(mix64(seed, 0x07e1) % 100 < 15);
         k[QStringLiteral("scramIter")] = 1;
         p.sknobs[QStringLiteral("sasl1")] = QStringLiteral("SCRAM-SHA-1");
         k[QStringLiteral("autoReconnect")] = 0;
